@@ -114,7 +114,8 @@ def run(ctx, proofs_ok):
     quick = ctx.tier == "quick"
     sizes = [0, 1, 2, 9, 10, 11, 100] + ([] if quick else [3000])
     counts = [None, 1, 3, 10, 11, 100, 5000] if not quick else [None, 1, 3, 10, 100]
-    patterns = [None, "*", "m*", "x*9", "nomatch*"]
+    # patterns without * or ? too: an exact name, character classes (a literal-looking pattern is still a pattern)
+    patterns = [None, "*", "m*", "x*9", "nomatch*", "m000[12]", "[mk]0001", "m0001", "?000[1-4]"]
     ops, expect = build(sizes, counts, patterns)
     apicheck.run_resp_streams(ctx, [
         {"label": "keyspace / hash / set / sorted-set commands incl. the scan commands with random cursors", "fams": ["keyspace", "zs", "sets", "hashes", "strings"],
